@@ -2,7 +2,7 @@
     The sphere grid (12 mapped blocks merged by a distance tolerance, SphereGrid.v) is modelled for every number interpretation;
     its node positions are compared bit for bit with the tool's on every run. *)
 From Coq Require Import List Arith Lia PeanoNat Bool ZArith Reals Lra.
-From WB Require Import Num Base Grid GridProofs SphereGrid SphereGridProofs.
+From WB Require Import Num Base RNum Grid GridProofs SphereGrid SphereGridProofs SphereGridReal.
 Import ListNotations.
 
 (** 3-D box: node and cell counts *)
@@ -149,7 +149,32 @@ Section C18_sphere.
     kept ds i -> kept ds j -> i < j ->
     nth i (sg_compact ds) 0 < nth j (sg_compact ds) 0 /\ nth j (sg_compact ds) 0 < n_kept ds.
   Proof. exact renumbering_is_order_preserving. Qed.
+  (** node i*n_kept + k of the mesh is shell node k on layer i *)
+  Theorem C18_sphere_node_order : forall level nz (inner outer : F) i k d0,
+    i <= nz -> k < n_kept (sphere_dups level outer) ->
+    nth (i * n_kept (sphere_dups level outer) + k) (sphere_nodes level nz inner outer) d0 =
+    nth k (layer_nodes inner outer nz (kept_points (all_nodes level) (sphere_dups level outer)) i) d0.
+  Proof. exact sphere_nodes_layer. Qed.
 End C18_sphere.
+
+(** over exact reals: every node of layer i lies on the sphere of radius inner + i (outer - inner)/n_cell_z, and these radii
+    run from the inner radius (layer 0) to the outer radius (layer n_cell_z) in equal steps *)
+Section C18_sphere_real.
+  Variable sp : special.
+  Local Existing Instance Rnum.
+  Let NR := Rnum sp.
+  Local Open Scope R_scope.
+
+  Theorem C18_sphere_layers : forall (inner outer : R) (nz : nat) shell i q d,
+    In (q, d) (@layer_nodes R NR inner outer nz shell i) ->
+    @sg_norm R NR q = Rabs (@layer_radius R NR inner outer nz i).
+  Proof. exact (layer_nodes_on_sphere sp). Qed.
+
+  Theorem C18_sphere_layer_radii : forall (inner outer : R) (nz : nat), (1 <= nz)%nat ->
+    @layer_radius R NR inner outer nz 0 = inner /\ @layer_radius R NR inner outer nz nz = outer /\
+    (forall i, @layer_radius R NR inner outer nz (S i) - @layer_radius R NR inner outer nz i = (outer - inner) / INR nz).
+  Proof. exact (layer_radius_ends sp). Qed.
+End C18_sphere_real.
 
 Print Assumptions C18_counts_3d.
 Print Assumptions C18_node_order_3d.
@@ -173,3 +198,6 @@ Print Assumptions C18_sphere_counts.
 Print Assumptions C18_sphere_cell_shape.
 Print Assumptions C18_sphere_cells_reference_nodes.
 Print Assumptions C18_sphere_renumbering.
+Print Assumptions C18_sphere_node_order.
+Print Assumptions C18_sphere_layers.
+Print Assumptions C18_sphere_layer_radii.
